@@ -6,5 +6,6 @@ CONSTANTS
   MaxOps = 7
   MaxCommits = 3
   WithFault = TRUE
+  Spine = FALSE
   Emit = TRUE
 CHECK_DEADLOCK FALSE
